@@ -139,6 +139,15 @@ EXPLORE = {
                  (8, 38, 3, "asc:36"), (8, 38, 3, "rnd:S:37"), (9, 44, 2, "asc:42"), (16, 160, 1, "asc:150")],
 }
 EXPLORE_MAXSTATES = 400000
+# C extension (extract/c_driver.ml --explore ... TARGET KIND): the C tree never merges, so emptied leaves are part of
+# the shape; target = plain type / Python subclass / package wrapper, kind = key type of the harness
+EXPLORE_C = {
+    "quick": [(4, 7, 0, "-", "c", "int"), (5, 7, 0, "-", "csub", "str"), (6, 7, 0, "-", "cwrap", "obj"),
+              (4, 14, 3, "asc:13", "cwrap", "int"), (5, 18, 2, "rnd:S:17", "c", "isub"), (7, 30, 1, "asc:29", "csub", "mstr")],
+    "thorough": [(4, 8, 0, "-", "c", "int"), (5, 8, 0, "-", "csub", "str"), (6, 8, 0, "-", "cwrap", "obj"), (7, 9, 0, "-", "c", "ssub"),
+                 (4, 14, 3, "asc:13", "cwrap", "int"), (4, 14, 3, "desc:13", "c", "ustr"), (5, 18, 3, "rnd:S:17", "c", "isub"),
+                 (5, 18, 3, "asc:16", "cwrap", "wstr"), (6, 22, 2, "asc:20", "csub", "obj"), (7, 30, 2, "asc:29", "csub", "mstr")],
+}
 # one larger scope per property in the quick tier, so that the properties together cover the thorough closures
 EXPLORE_QUICK_EXTRA = {"C04": [(4, 12, 0, "-")], "C01": [(5, 11, 0, "-")], "C02": [(6, 12, 0, "-")], "C06": [(7, 12, 0, "-")],
                        "C11": [(8, 13, 0, "-")], "C05": [(4, 16, 5, "asc:15")], "C10": [(4, 9, 0, "-", "try"), (5, 9, 0, "-", "item"), (4, 16, 3, "asc:15", "try"), (5, 20, 3, "desc:18", "item"), (6, 26, 2, "asc:24", "try")], "C03": [(5, 20, 4, "asc:18")]}
@@ -161,6 +170,8 @@ def explore_shards(prop, cfg, tier, drv, seed=1, runner=None, nsplit=16):
     scopes = EXPLORE[tier] + (EXPLORE_QUICK_EXTRA.get(prop, []) if tier == "quick" else [])
     if prop in ("C07", "C08", "C09") and runner is not None and getattr(runner, "driver", None):
         drv, scopes = runner.driver, EXPLORE_PY[tier]
+    elif prop in ("C12", "C13") and runner is not None and getattr(runner, "driver", None):
+        drv, scopes = runner.driver, EXPLORE_C[tier]
     elif cfg.get("target") == "arena":
         scopes = [("arena", 5)] if tier == "quick" else [("arena", 6), ("arena", 7)]
     elif cfg.get("target") != "rust" or cfg.get("gen") or prop in EXT:
@@ -175,7 +186,7 @@ def explore_shards(prop, cfg, tier, drv, seed=1, runner=None, nsplit=16):
         else:
             cap, u, depth, start = sc[:4]
             start = start.replace(":S:", ":%d:" % (seed % 100000))
-            cmd = [drv, "--explore", str(cap), str(u), str(EXPLORE_MAXSTATES), str(depth), start] + list(sc[4:5])
+            cmd = [drv, "--explore", str(cap), str(u), str(EXPLORE_MAXSTATES), str(depth), start] + list(sc[4:])
         r = subprocess.run(cmd, stdout=subprocess.PIPE, stderr=subprocess.PIPE, timeout=1800)
         m = re.search(r"EXPLORE cap=(\d+) keys=(\d+) states=(\d+) transitions=(\d+) longest_path=(\d+) closed=(\w+) structural=(\d+)", r.stderr.decode())
         if r.returncode != 0 or not m:
